@@ -76,11 +76,26 @@ def _parametric_bounds_array(dist_family, *args, **kwargs):
     stats = [dist.stats(*a[:n_pos], **_kw(a), moments="mv") for a in g2]
 
     means, vars_ = zip(*stats)
-    mean = I(min(means), max(means))
-    var = I(min(vars_), max(vars_))
 
     Left = np.min(bounds, axis=0)
     Right = np.max(bounds, axis=0)
+
+    # The family's own moments describe the p-box only if they exist and are compatible
+    # with the discretised support [Left[0], Right[-1]] (mean inside it, variance at most a
+    # quarter of its squared width).  Heavy-tailed families (cauchy, t or pareto with few
+    # degrees of freedom, ...) have none: leave them to be derived from the bounds.
+    lo, hi = Left[0], Right[-1]
+    moments = np.array([*means, *vars_], dtype=float)
+    if (
+        np.all(np.isfinite(moments))
+        and lo <= min(means)
+        and max(means) <= hi
+        and max(vars_) <= (hi - lo) ** 2 / 4
+    ):
+        mean = I(min(means), max(means))
+        var = I(min(vars_), max(vars_))
+    else:
+        mean, var = None, None
 
     return Left, Right, mean, var
 
